@@ -42,6 +42,10 @@ CLAIMED['C13'] = dict(design='5 (C13), 2', note='trusted: MIRSE MIR semantics + 
     'order fixed (only counts are used); IEEE-754 queries on the F-beta formula are decided by cvc5 (beta symbolic: every f32 value in (0,8] '
     'in the quick tier, every f64 in thorough); private functions are replayed natively through the `verif` hook feature; known finding '
     'KF-C13-1 (deleted whole words counted as false positives) excluded only while its witness reproduces; two defects repaired by fix commits')
+CLAIMED['C04'] = dict(design='5 (C04), 2', note='trusted: MIRSE MIR semantics + std models, regex model (literal alternation); tokenizers are built '
+    'by interpreting the real constructors (ByteTokenizer::new, CharTokenizer::new, BPETokenizer::new with the msgpack load stubbed by an '
+    'in-memory table); queried id symbolic u32, queried token from a representative subset; HashMap order fixed; BPE id_to_token defect '
+    'repaired by a fix commit')
 NOT_YET = 'check not built yet in this session (work in progress, see DESIGN.md section 6 for the order)'
 NA = {}
 
